@@ -81,6 +81,12 @@ def check_r121(fx, rep):
         sorts = [(m, n, ps) for m, n, ps in ws if m in SORTS]
         others = [m for m in methods if m not in SORTS and m not in ("push",)]
         w = F.loc(b["span"])
+        if others == ["insert"] and not pushes_only(ws):
+            # sorted insertion: position from partition_point / binary_search_by(_key) over (index, offset)
+            ins = [(n, ps) for m, n, ps in ws if m == "insert"][0]
+            ok, why = keyed_insert_ok(b, ins[0], ins[1], vf)
+            rep.oblige(ok, "R12.1", f"sorted-insert:{fn}", F.loc(ins[0]["span"]), f"`{fn}` inserts an entry at a computed position: {why}", sample={"rule": "R12.1", "fn": fn, "insert": "binary search on (index, offset)" if ok else why})
+            continue
         if others:
             rep.oblige(False, "R12.1", f"writer:{fn}", w, f"`{fn}` mutates the layout's entries with {sorted(set(others))}: only push-then-sort by (index, offset) keeps the order invariant")
             continue
@@ -147,6 +153,42 @@ def check_r121(fx, rep):
         if b.get("impl_self") == LAYOUT and b.get("vis") == "Public" and (fx.fns.get(b["def"], {}).get("output", "").replace(" ", "") in ("&std::vec::Vec<layout::StorageSlot>", "&[layout::StorageSlot]")):
             t = T.block_term({"stmts": [], "expr": b["hir"]["value"]}, T.Env())
             rep.oblige(self_field(t, vf), "R12.1", f"accessor:{b['name']}", F.loc(b["span"]), f"`{b['def']}` returns `{T.short(t)}` rather than the sorted entry vector")
+
+
+def pushes_only(ws):
+    return all(m == "push" or m in SORTS for m, _, _ in ws)
+
+
+def keyed_insert_ok(b, ins, ps, vf):
+    """`self.slots.insert(pos, slot)` with pos = self.slots.partition_point(|s| (s.index, s.offset) <= (slot.index, slot.offset))
+    (or `<`), or binary_search_by(_key) on the same pair."""
+    root = b["hir"]["value"]
+    mutated = T.mutated_locals(root)
+    env = T.env_at(ps, ins, mutated)
+    pos = T.term(ins["args"][0], env, mutated)
+    found = None
+    for st in T.subterms(pos):
+        if st[0] == "call" and isinstance(st[1], str) and F.strip_generics(st[1]).split("::")[-1] in ("partition_point", "binary_search_by", "binary_search_by_key"):
+            found = st
+    if found is None:
+        return False, "the position does not come from a binary search over the entries"
+    # locate the closure node of that search call in the HIR and read its comparison
+    for n, nps in F.calls(root):
+        if n.get("k") == "MethodCall" and n["method"] in ("partition_point", "binary_search_by", "binary_search_by_key"):
+            clos = [F.strip(a) for a in n["args"] if F.strip(a).get("k") == "Closure"]
+            if not clos:
+                return False, "search without a closure (unrecognised idiom)"
+            t = T.term(clos[-1]["body"], T.Env())
+            txt = T.short(t)
+            fields_in = [s[2] for s in T.subterms(t) if s[0] == "field"]
+            if "index" in fields_in and "offset" in fields_in:
+                # lexicographic: tuple comparison or cmp chain
+                tuples = [s for s in T.subterms(t) if s[0] == "tuple" and len(s[1]) == 2 and s[1][0][0] == "field" and s[1][0][2] == "index" and s[1][1][0] == "field" and s[1][1][2] == "offset"]
+                if tuples:
+                    return True, ""
+                return False, f"search key `{txt[:60]}` is not the pair (index, offset) in that order"
+            return False, f"the insertion position is computed from `{txt[:60]}`, ignoring {'the offset' if 'offset' not in fields_in else 'the index'}: entries of one slot are not kept in offset order"
+    return False, "search call not found"
 
 
 def sort_key_ok(sn, method):
@@ -325,6 +367,23 @@ def check_r122(fx, rep):
                             ct = T.term(anc["cond"], env, mutated)
                             if mentions_word_bits(ct, fx) and any(s == t for s in T.subterms(ct)):
                                 res = True
+                if res and f == "size" and "offset" in fields:
+                    # `size.min(WORD_SIZE_BITS - X)`: X must be the very offset stored next to it
+                    off_t = T.term(fields["offset"], env, mutated)
+                    for st in T.subterms(t):
+                        if st[0] == "call" and isinstance(st[1], str) and F.strip_generics(st[1]).split("::")[-1] == "min":
+                            for a in st[2]:
+                                if a[0] == "bin" and a[1] == "Sub" and mentions_word_bits(a[2], fx) and a[3] != off_t:
+                                    res = False
+                                    rep.oblige(
+                                        False,
+                                        "R12.2",
+                                        f"end-bound:{F.strip_generics(b['def'])}:{name}",
+                                        F.loc(node["span"]),
+                                        f"the size of the {name} is limited to WORD_SIZE_BITS - `{T.short(a[3])[:40]}`, which is not the offset it is stored with (`{T.short(off_t)[:40]}`): the entry can end beyond bit 256",
+                                    )
+                    if not res:
+                        continue
                 rep.oblige(
                     bool(res),
                     "R12.2",
